@@ -14,9 +14,10 @@ from pddl_plus_parser.exporters import TrajectoryExporter
 from pddl_plus_parser.lisp_parsers import TrajectoryParser
 
 
-KINDS = ["app", "apply", "newop", "applyop", "copy", "eq", "run", "export", "parse", "objs", "flconds", "typed"]
-WEIGHTS = {"chain": [3, 8, 1, 3, 0, 0, 2, 0, 0, 0, 0, 0], "mixed": [2, 5, 1, 3, 1, 2, 2, 1, 1, 1, 1, 1],
-           "state": [1, 5, 1, 2, 3, 6, 1, 0, 1, 2, 2, 2], "traj": [0, 2, 0, 0, 0, 1, 4, 3, 4, 0, 0, 0]}
+KINDS = ["app", "apply", "newop", "applyop", "copy", "eq", "run", "export", "parse", "objs", "flconds", "typed", "edit"]
+WEIGHTS = {"chain": [3, 8, 1, 3, 0, 0, 2, 0, 0, 0, 0, 0, 2], "mixed": [2, 5, 1, 3, 1, 2, 2, 1, 1, 1, 1, 1, 2],
+           "state": [1, 5, 1, 2, 3, 6, 1, 0, 1, 2, 2, 2, 3], "traj": [0, 2, 0, 0, 0, 1, 4, 3, 4, 0, 0, 0, 0],
+           "plans": [0, 1, 0, 0, 0, 0, 6, 1, 1, 0, 0, 0, 0]}
 
 
 def proj_steps(triplets):
@@ -55,8 +56,16 @@ def run_case(case, opts):
     states = {"s0": s0}
     ops = {}
     runs = {}
+    run_prob = {}
+    plans_done = []
     acts = case["acts"]
     objs = case["objs"]
+    second = None       # (handle, problem, objects, initial state) of the second problem, used by plan runs only
+    if case.get("prob2") and case.get("weights", "mixed") in ("mixed", "traj", "plans"):
+        out2, prob2 = pylib.observe_problem(layout.pretty(case["prob2"]), dom)
+        ev.append({"c": "ParseProblem", "h": "p2", "d": "d", "tree": case["prob2"], "out": out2})
+        if prob2 is not None:
+            second = ("p2", prob2, case["objs2"], pylib.State(prob2.initial_state_predicates, prob2.initial_state_fluents, is_init=True))
     fluent_terms = gen_core.fluent_terms(case["dom"], [])
     cnt = [0]
 
@@ -64,7 +73,7 @@ def run_case(case, opts):
         cnt[0] += 1
         return f"{prefix}{cnt[0]}"
 
-    def pick_call(state, want_applicable):
+    def pick_call(state, want_applicable, objs=objs, prob=prob):
         """a type-correct call; with want_applicable the library itself is asked (input selection only)"""
         last_ok = None
         for _ in range(12):
@@ -149,6 +158,25 @@ def run_case(case, opts):
                 ev.append({"c": "CopyState", "s": sh, "h": h, "out": {"st": pylib.project_state(states[h])}})
             except Exception as e:  # noqa: BLE001
                 ev.append({"c": "CopyState", "s": sh, "h": h, "out": {"exc": pylib.exc_name(e)}})
+        elif kind == "edit":
+            # in-place change of a State object nobody else refers to (a copy or a successor), through its public
+            # containers; the applicability of some call on it is asked just before and just after
+            cands = [h for h in states if h[0] in "cn"]
+            if not cands:
+                continue
+            sh = rng.choice(cands)
+            pc = pick_call(states[sh], rng.random() < 0.5)
+            if pc is not None:
+                ev.append({"c": "IsApplicable", "d": "d", "u": "p", "act": pc[0], "args": pc[1], "s": sh,
+                           "out": pylib.observe_applicable(dom, pc[0], pc[1], prob.objects, states[sh])})
+            edit = pylib.edit_state(rng, dom, states[sh], gen_core.ground_atoms(objs))
+            if edit is None:
+                continue
+            edit.update({"c": "EditState", "s": sh})
+            ev.append(edit)
+            if pc is not None:
+                ev.append({"c": "IsApplicable", "d": "d", "u": "p", "act": pc[0], "args": pc[1], "s": sh,
+                           "out": pylib.observe_applicable(dom, pc[0], pc[1], prob.objects, states[sh])})
         elif kind == "objs":
             try:
                 out = {"names": sorted(states[sh].get_state_objects())}
@@ -177,28 +205,36 @@ def run_case(case, opts):
             ev.append({"c": "StateEq", "a": sh, "b": sh2, "out": out})
         elif kind == "run":
             allow = rng.random() < 0.35
-            plan, cur = [], s0
-            for _ in range(rng.randint(1, 6)):
-                pc = pick_call(cur, rng.random() < 0.7)
+            ph, rprob, robjs, rs0 = second if second and rng.random() < 0.4 else ("p", prob, objs, s0)
+            plan, cur = [], rs0
+            names_r = {o for o, _ in robjs} | {c for c, _ in gen_core.CONSTS}
+            if ph == "p2" and plans_done and rng.random() < 0.6:
+                # the calls of an earlier plan of the first problem, word for word, as far as their objects exist here
+                plan = [[n, list(a)] for n, a in rng.choice(plans_done) if all(x in names_r for x in a)]
+            for _ in range(rng.randint(1, 6) if not plan else 0):
+                pc = pick_call(cur, rng.random() < 0.7, robjs, rprob)
                 if pc is None:
                     continue
                 name, args = pc
                 plan.append([name, args])
                 try:
-                    cur = pylib.new_operator(dom, name, args, prob.objects).apply(cur, allow_inapplicable_actions=True)
+                    cur = pylib.new_operator(dom, name, args, rprob.objects).apply(cur, allow_inapplicable_actions=True)
                 except Exception:  # noqa: BLE001
                     pass
             if not plan:
                 continue
+            if ph == "p":
+                plans_done.append(plan)
             lines = [("(" + " ".join([n] + a) + ")") if rng.random() < 0.7 else ("(" + " ".join([n.upper()] + [x.upper() for x in a]) + ")\n")
                      for n, a in plan]
             h = fresh("r")
             try:
-                triplets = exporter[allow].parse_plan(prob, action_sequence=lines)
+                triplets = exporter[allow].parse_plan(rprob, action_sequence=lines)
                 runs[h] = triplets
-                ev.append({"c": "RunPlan", "h": h, "d": "d", "p": "p", "plan": plan, "allow": allow, "out": {"steps": proj_steps(triplets)}})
+                run_prob[h] = rprob
+                ev.append({"c": "RunPlan", "h": h, "d": "d", "p": ph, "plan": plan, "allow": allow, "out": {"steps": proj_steps(triplets)}})
             except Exception as e:  # noqa: BLE001
-                ev.append({"c": "RunPlan", "h": h, "d": "d", "p": "p", "plan": plan, "allow": allow, "out": {"exc": pylib.exc_name(e)}})
+                ev.append({"c": "RunPlan", "h": h, "d": "d", "p": ph, "plan": plan, "allow": allow, "out": {"exc": pylib.exc_name(e)}})
         elif kind == "export" and runs:
             rh = rng.choice(list(runs))
             try:
@@ -213,7 +249,7 @@ def run_case(case, opts):
                 text = "".join(TrajectoryExporter.export(runs[rh]))
                 p = pylib.write_tmp(text, ".trajectory")
                 try:
-                    obs = TrajectoryParser(dom, prob if with_problem else None).parse_trajectory(p)
+                    obs = TrajectoryParser(dom, run_prob[rh] if with_problem else None).parse_trajectory(p)
                 finally:
                     os.unlink(p)
                 comps = [{"pre": pylib.project_state(c.previous_state),
